@@ -79,6 +79,9 @@ func visWriteHTML(w io.Writer, title string, recData []recordedBits) error {
 		}
 
 		for _, group := range rd.groups {
+			if group.begin >= len(images) {
+				continue // a group that was opened at the very end of the data and never drew anything
+			}
 			images[group.begin].GroupBegins = append(images[group.begin].GroupBegins, visGroupToInfo(labelClasses, group))
 			if group.end > 0 {
 				images[group.end-1].GroupEnds = append(images[group.end-1].GroupEnds, visGroupToInfo(labelClasses, group))
